@@ -1248,7 +1248,7 @@ def sigassign_program(rng, n_stmts):
         body.append(text)
         return len(body) - 1
     for _ in range(n_stmts):
-        k = rng.randrange(21)
+        k = rng.randrange(22)
         if k == 0:      # scalar, not quadratic, 0..3 constraints mentioning it (and a decoy with a longer name)
             sname = fresh("s")
             decl.append(f"signal {sname}; signal {sname}x;")
@@ -1362,6 +1362,13 @@ def sigassign_program(rng, n_stmts):
             s1, s2 = fresh("p"), fresh("p")
             decl.append(f"signal {s1}; signal {s2};")
             pending.append((emit(f"  ({s1}, {s2}) <-- (in \\ 2, in2 \\ 3);"), 2, None))
+        elif k == 21:   # component input assigned with `<--`, then constrained through the port
+            cname = fresh("cp")
+            decl.append(f"component {cname} = Sub();")
+            a = emit(f"  {cname}.a <-- in \\ 2;")
+            c1 = emit(f"  {cname}.a * 2 === in;")
+            emit(f"  {cname}.b <== in2;")
+            pending.append((a, 1, [c1]))
         elif k == 18:   # anonymous component with a single named `<--` input
             sname = fresh("u")
             decl.append(f"signal {sname};")
@@ -1566,6 +1573,21 @@ def suite_scopes(exe, tier, seed):
                     add(f"params:{pname}", {"case": pname, "kind": kind, "source": psrc}, f"parameters ({params}) of a {kind}: parameter-name-collision findings (CS0002) on lines {got}, expected {want}")
                 elif want and rc == 0:
                     add(f"params:{pname}", {"case": pname, "kind": kind, "source": psrc}, f"parameters ({params}) of a {kind}: the collision is displayed but the exit status is 0")
+        # ---- two declarations of one name in sibling blocks are two things: what is said (or not) about one does not depend on the other
+        SIB = "pragma circom 2.0.0;\ntemplate D() { signal input a; signal output b; signal output aux; b <== a; aux <== a * a; }\ntemplate T(n) {\n  signal input in;\n  signal output out;\n%s\n}\ncomponent main = T(1);\n"
+        for (sname, body, code, line) in [
+                ("components", "  if (n == 0) {\n    component c = D();\n    c.a <== in;\n    out <== c.b + c.aux;\n  } else {\n    component c = D();\n    c.a <== in;\n    out <== c.b;\n  }", "CS0018", 11),
+                ("components-nested", "  component c = D();\n  c.a <== in;\n  out <== c.b + c.aux;\n  if (n == 0) {\n    component c = D();\n    c.a <== in;\n    log(c.b);\n  }", "CS0018", 10),
+                ("variable-and-signal", "  if (n == 0) {\n    var t = 5;\n    out <== in;\n  } else {\n    signal t;\n    out <== in;\n  }", "CS0006", 10)]:
+            path = os.path.join(d, "sib.circom")
+            open(path, "w").write(SIB % body)
+            rc, out, err = run_cli(exe, ["-v", path], d)
+            evals += 1; nontrivial += 1
+            if rc is None or rc not in (0, 1) or "panicked" in err:
+                add("run", {"case": sname}, f"siblings/{sname}: the tool aborted or hung (exit {rc})")
+            elif not any(c == code and ln == line for (c, ln, _) in coded_findings(out)):
+                add(f"siblings:{sname}", {"case": sname, "source": SIB % body},
+                    f"siblings/{sname}: no {code} finding on line {line} — the second declaration of the name is treated as if it were the first one (findings: {sorted((c, ln) for (c, ln, _) in coded_findings(out))}):\n{body}")
         for pi in range(n_prog):
             rng = random.Random(7000 * seed + pi)
             src, shadows, uses = scopes_program(rng, 4 + pi % 12)
@@ -1918,6 +1940,18 @@ def suite_determinism(exe, tier, seed):
                     f"{pname}: `circomspect cl_user.circom` (template T defined in cl_user.circom and in the included cl_lib.circom) displayed {len(kinds)} different sets of findings in {len(seen)} runs, e.g. {str(kinds[0])[:200]} and {str(kinds[1])[:200]}")
             elif not any(c == "CS0013" or c == "CS0005" for (c, _) in seen[0][1]):
                 add(f"duplicate-name:{pname}", {"outcome": str(seen[0])[:300]}, f"{pname}: the template T of the named file (with a `<--`) was not analysed: {str(seen[0])[:300]}")
+        # (6) a definition with several errors of one kind (reads of variables that are never assigned, in sibling blocks):
+        # whichever of them is reported, it is the same one on every run
+        open(os.path.join(d, "undef.circom"), "w").write("pragma circom 2.0.0;\nfunction g(c) {\n  var a;\n  var b;\n  var r = 0;\n  if (c == 0) {\n    r = a + 1;\n  } else {\n    r = b + 2;\n  }\n  return r;\n}\n")
+        seen = []
+        for k in range(10 if tier == "quick" else 40):
+            rc, out, err = run_cli(exe, ["-v", "undef.circom"], d)
+            evals += 1; nontrivial += 1
+            seen.append((rc, tuple(sorted((c, ln) for (c, ln, _) in coded_findings(out)))))
+        if len(set(seen)) > 1:
+            kinds = sorted(set(seen), key=str)
+            add("which-error", {"runs": len(seen), "outcomes": [str(k)[:200] for k in kinds[:3]]},
+                f"`circomspect undef.circom` (a function reading two never-assigned variables in the two branches of a conditional) displayed {len(kinds)} different sets of findings in {len(seen)} runs: {str(kinds[0])[:160]} and {str(kinds[1])[:160]}")
     except StopIteration:
         pass
     finally:
